@@ -572,9 +572,18 @@ var _ rpc.Resources
 //@ func (*Service).stopHTTPServer
 //@   trusted
 //@   ensures s.stop == old(s.stop) && s.stopping == old(s.stopping)
+// stopMQClient: the messaging client is closed on a goroutine of its own (the wait for it is
+// bounded), and the cache is stopped exactly once - whatever state the messaging client is in:
+// after a lost connection, too, the cache must stop serving and be ready for another Start.
 //@ func (*Service).stopMQClient
-//@   trusted
+//@   requires s != nil && s.mq != nil && s.cache != nil
+//@   ensures[C20] callcount("Stop") == old(callcount("Stop")) + 1 && spawncount() == old(spawncount()) + 1
 //@   ensures s.stop == old(s.stop) && s.stopping == old(s.stopping)
+//@   safety[C15]
+//@ closure (*Service).stopMQClient#1
+//@   requires s != nil && s.mq != nil
+//@   ensures[C20] callcount("Close") == old(callcount("Close")) + 1
+//@   safety[C15]
 
 //@ func (*wsConn).Disconnect
 //@   requires c != nil
@@ -618,6 +627,8 @@ var _ rpc.Resources
 // (the stop channel has room for the cause: reporting it never blocks Stop, whether or not
 // anybody is receiving - established by start, relied on here)
 //@   assumes s.stop != nil ==> cap(s.stop) >= 1
+// (a started service has its messaging client and cache)
+//@   assumes s.stop != nil ==> s.mq != nil && s.cache != nil
 //@   assert[C20] send#1: cap(s.stop) >= 1 && sendcount() == old(sendcount())
 //@   ensures[C20] old(s.stop) == nil || old(s.stopping) ==> s.stop == old(s.stop) && s.stopping == old(s.stopping) &&
 //@       sendcount() == old(sendcount()) && callcount("stopWSHandler") == old(callcount("stopWSHandler")) && callcount("stopMQClient") == old(callcount("stopMQClient"))
